@@ -687,6 +687,109 @@ def run(ctx):
     else:
         run_mc(ctx, thorough)
     gen_and_drive(ctx, thorough)
+    drive_big(ctx, thorough)
+
+
+# ---- large sizes (spec/ByteBuf/BigBuf.tla, harness/bytebuf_big_adapter.c)
+KIB, MIB = 1024, 1024 * 1024
+BIG_SIZES = [0, 1, 255, 4095, 4096, 4097, 65535, 65536, 100000, 512 * KIB, MIB - 1, MIB, MIB + 1, MIB + 4096, 2 * MIB - 1,
+             2 * MIB, 2 * MIB + 1, 3 * MIB, 4 * MIB + 7, 5 * MIB, 8 * MIB, 12 * MIB + 13]
+
+
+def big_exec(rng, huge=False):
+    """Model-tracked script for the large-size family: at most two buffers, at most ~40 MiB per buffer; sizes around
+    powers of two between 4 KiB and 12 MiB (where growth policies, page-sized copies and size arithmetic change case)."""
+    limit = (96 if huge else 40) * MIB
+    ex = ["RESET"]
+    st = {1: None, 2: None}          # None or [len, cap_lower_bound]
+
+    def size():
+        r = rng.random()
+        if r < 0.6:
+            return rng.choice(BIG_SIZES)
+        if r < 0.8:
+            return rng.choice(BIG_SIZES) + rng.choice([-3, -1, 1, 2, 17])
+        return rng.randrange(0, (24 if huge else 6) * MIB)
+
+    for _ in range(rng.randint(3, 9)):
+        b = rng.choice([1, 2])
+        if st[b] is None:
+            o = 3 - b
+            if st[o] is not None and rng.random() < 0.3:
+                ex.append("COPY %d %d" % (b, o))
+                st[b] = [st[o][0], st[o][0]]
+            else:
+                n = max(0, rng.choice([0, 0, 1, 16, 4096, 65536, MIB, 3 * MIB]) + rng.choice([0, 0, -1, 1]))
+                ex.append("INIT %d %d" % (b, n))
+                st[b] = [0, n]
+            continue
+        ln, cap = st[b]
+        r = rng.random()
+        v = rng.randrange(1, 256)
+        if r < 0.45:
+            n = max(0, size())
+            if ln + n > limit:
+                continue
+            ex.append("APPD %d %d %d %d" % (b, v, n, rng.choice([0, 0, 1])))
+            st[b] = [ln + n, max(cap, ln + n)]
+        elif r < 0.55 and ln > 0:
+            n = rng.choice([1, ln, ln // 2, min(ln, MIB + 1), min(ln, 4096)])
+            off = rng.choice([0, ln - n, (ln - n) // 2])
+            if ln + n > limit:
+                continue
+            ex.append("SELF %d %d %d %d" % (b, off, n, rng.choice([0, 1])))
+            st[b] = [ln + n, max(cap, ln + n)]
+        elif r < 0.68:
+            kind = rng.choice(["abs", "rel"])
+            n = max(0, size())
+            if (ln if kind == "rel" else 0) + n > limit:
+                continue
+            ex.append("RESV %d %s %d" % (b, kind, n))
+            st[b] = [ln, max(cap, (ln if kind == "rel" else 0) + n)]
+        elif r < 0.78:
+            # fixed-size append / write_u8_n: outcome decided by the specification from the observed capacity
+            n = max(0, rng.choice([size(), max(0, cap - ln), max(0, cap - ln) + 1, max(0, cap - ln - 1)]))
+            if n > limit:
+                continue
+            ex.append(("APP %d %d %d" if rng.random() < 0.5 else "WU8N %d %d %d") % (b, v, n))
+            if ln + n <= cap:
+                st[b] = [ln + n, cap]                    # fits whatever the real capacity is
+            else:
+                # whether it fits depends on the real capacity (only bounded from below here): the specification decides
+                # from the observed one; the driver forgets the length by resetting the buffer
+                ex.append("RST %d %d" % (b, rng.choice([0, 1])))
+                st[b] = [0, cap]
+        elif r < 0.86:
+            ex.append("RST %d %d" % (b, rng.choice([0, 1])))
+            st[b] = [0, cap]
+        else:
+            ex.append("CLEAN %d %d" % (b, rng.choice([0, 1])))
+            st[b] = None
+    return ex
+
+
+def drive_big(ctx, thorough):
+    ctx.mc(SPEC_DIR, "BigBufMC", "MC_big.cfg", timeout=900, xmx="4g", workers=8,
+           required_actions=["BigBufMC!" + a for a in ("MInitB", "MAppendFixed", "MAppendDynamic", "MAppendSelf", "MReserve",
+                                                       "MInitCopy", "MReset", "MCleanUp")])
+    exe = build.build_harness("bytebuf_big_adapter", ["bytebuf_big_adapter.c"], cflags=["-Wno-unused-function"])
+    rng = random.Random(ctx.seed * 31 + 5)
+    execs = [
+        # one append far beyond the current capacity; growth in several steps; self-append across a reallocation
+        ["RESET", "INIT 1 16", "APPD 1 7 6 0", "APPD 1 9 3145728 0", "APPD 1 7 1 1", "CLEAN 1 0"],
+        ["RESET", "INIT 1 0", "APPD 1 1 1048576 0", "APPD 1 2 1048577 1", "APPD 1 3 2097153 0", "SELF 1 1048570 2097160 0", "CLEAN 1 1"],
+        ["RESET", "INIT 1 4096", "RESV 1 rel 5242880", "APP 1 5 5242880", "APP 1 6 1", "RESV 1 abs 6291456", "WU8N 1 4 1048577", "COPY 2 1", "CLEAN 1 0", "CLEAN 2 1"],
+    ]
+    n = 120 if not thorough else 1500
+    for i in range(n):
+        execs.append(big_exec(rng, huge=thorough and i % 10 == 0))
+    for ex in execs:
+        ctx.distinct.add(hash("big|" + "\n".join(ex)))
+    ctx.add_sample({"family": "large sizes", "script": execs[0]})
+    k = pipeline.drive_and_validate(ctx, exe, execs, SPEC_DIR, "BigBufTrace", "TraceBig.cfg", label="bigbuf",
+                                    harness_timeout=600, xmx="4g")
+    ctx.extra["large_size_executions"] = len(execs)
+    return k
 
 
 def run_mc(ctx, thorough):
